@@ -27,6 +27,7 @@ type blockRec struct {
 	ReceiptsHash   []byte
 	Obs            map[string]string // observable state after the commit
 	Logs           map[string]int    // tx hash (hex) → number of logs in its receipt
+	Tip            evmkit.Tip        // the consensus tip the block's header was built from
 }
 
 type seqRec struct {
@@ -55,7 +56,8 @@ type engine struct {
 	infoMu sync.Mutex
 	infos  map[string]*txInfo
 
-	positionalSkips int64
+	positionalSkips   int64
+	singleRemovalRuns int64
 }
 
 func (e *engine) info(raw []byte) *txInfo {
@@ -204,6 +206,15 @@ func (e *engine) baseNonce(a common.Address) uint64 {
 // — used to keep the block hashes of a counterfactual identical to the
 // original's, because receipts of log-emitting txs embed the block hash.
 func (e *engine) exec(blocks [][][]byte, watchSrc [][][]byte, hdrSrc [][][]byte) *seqRec {
+	return e.execOpt(blocks, watchSrc, hdrSrc, false, nil)
+}
+
+// execOpt: light = verdicts and hashes only (no observation queries after the blocks).
+// hdrFrom (with hdrSrc): the headers are built from the tips of that run, not from this
+// chain's own tip, so that every block hashes exactly like the original's whatever the
+// receipts hashes of the earlier blocks were (the application never looks at the header's
+// AppHash / ReceiptsHash / LastBlockID).
+func (e *engine) execOpt(blocks [][][]byte, watchSrc [][][]byte, hdrSrc [][][]byte, light bool, hdrFrom *seqRec) *seqRec {
 	rec := &seqRec{}
 	// a panic while decoding / recovering the sender would happen on a goroutine
 	// spawned by the application and kill the process: pre-screen on this goroutine
@@ -236,11 +247,15 @@ func (e *engine) exec(blocks [][][]byte, watchSrc [][][]byte, hdrSrc [][][]byte)
 		atomic.AddInt64(&e.blocks, 1)
 		atomic.AddInt64(&e.txs, int64(len(txs)))
 		blk := c.MakeBlock(txs)
+		tip := c.Tip
 		if hdrSrc != nil {
-			blk = evmkit.MakeBlockAt(c.Tip, hdrSrc[bi])
+			if hdrFrom != nil {
+				tip = hdrFrom.Blocks[bi].Tip
+			}
+			blk = evmkit.MakeBlockAt(tip, hdrSrc[bi])
 			blk.Data.Txs = c.MakeBlock(txs).Data.Txs
 		}
-		br := &blockRec{}
+		br := &blockRec{Tip: tip}
 		var execErr error
 		if p, v, st := core.Try(func() {
 			er, err := c.Execute(blk)
@@ -275,6 +290,9 @@ func (e *engine) exec(blocks [][][]byte, watchSrc [][][]byte, hdrSrc [][][]byte)
 				core.Fatal("OnCommit returned an error (machinery, not a verdict): %v", err)
 			}
 			br.AppHash, br.ReceiptsHash = cr.AppHash, cr.ReceiptsHash
+			if light {
+				return
+			}
 			src := watchSrc[bi]
 			if bi > 0 {
 				src = append(append([][]byte{}, watchSrc[bi-1]...), src...) // what the previous block named is still watched
@@ -587,7 +605,7 @@ func (e *engine) check(blocks [][][]byte) (fs []finding, outcome []string, rec *
 	if needHdr {
 		hdr = blocks
 	}
-	cr := e.exec(cf, blocks, hdr)
+	cr := e.execOpt(cf, blocks, hdr, false, rec)
 	if cr.Panic {
 		// the counterfactual consists of txs reported valid: the panic is its own problem
 		fs = append(fs, finding{sig: map[string]string{"kind": "panic", "phase": cr.PanicPhase, "site": cr.PanicSite, "input": "counterfactual"},
@@ -645,6 +663,130 @@ func (e *engine) check(blocks [][][]byte) (fs []finding, outcome []string, rec *
 		fs = append(fs, finding{sig: map[string]string{"kind": "invalid-tx-changed-state", "diff": diff, "input": cls},
 			detail: fmt.Sprintf("after block %d: app hash %x vs %x, receipts hash %x vs %x (with vs without the txs reported invalid; nearest invalid tx: block %d tx %d, %s, error %q); observable differences: %s",
 				bi+1, p.AppHash, q.AppHash, p.ReceiptsHash, q.ReceiptsHash, ab+1, at, cls, cause, strings.Join(od, "; ")), block: ab, tx: at})
+		return fs, outcome, rec
+	}
+	// (3b) "as if it had not been in the block" holds for every invalid tx on its own: the blocks
+	// without ONLY the first invalid tx of each block (the other invalid ones stay) must give every
+	// remaining tx the verdict it had and the same app hashes.  Needed only when some block has two
+	// or more invalid txs (otherwise this is the sequence of (3)).
+	several := false
+	first := make([]int, len(blocks))
+	for bi, txs := range blocks {
+		first[bi] = -1
+		n := 0
+		for i := range txs {
+			if !vd[bi][i] {
+				if n == 0 {
+					first[bi] = i
+				}
+				n++
+			}
+		}
+		if n >= 2 {
+			several = true
+		}
+	}
+	if !several {
+		return fs, outcome, rec
+	}
+	atomic.AddInt64(&e.singleRemovalRuns, 1)
+	cf1 := make([][][]byte, len(blocks))
+	for bi, txs := range blocks {
+		for i, t := range txs {
+			if i != first[bi] {
+				cf1[bi] = append(cf1[bi], t)
+			}
+		}
+	}
+	c1 := e.execOpt(cf1, blocks, hdr, true, rec)
+	if c1.Panic {
+		b, cls := c1.PanicAt, "block"
+		if first[b] >= 0 {
+			cls = e.info(blocks[b][first[b]]).class
+		}
+		fs = append(fs, finding{sig: map[string]string{"kind": "panic", "phase": c1.PanicPhase, "site": c1.PanicSite, "input": "counterfactual-single-removal"},
+			detail: fmt.Sprintf("the sequence without the first invalid tx of each block (%s in block %d) panics: %s", cls, b+1, c1.PanicVal), block: b, tx: first[b]})
+		return fs, outcome, rec
+	}
+	for bi, txs := range blocks {
+		p, q := rec.Blocks[bi], c1.Blocks[bi]
+		wantV, wantI, gotV, gotI := map[string]int{}, map[string]int{}, map[string]int{}, map[string]int{}
+		for i, t := range txs {
+			if i == first[bi] {
+				continue
+			}
+			if vd[bi][i] {
+				wantV[string(t)]++
+			} else {
+				wantI[string(t)]++
+			}
+		}
+		for _, t := range q.Valid {
+			gotV[string(t)]++
+		}
+		for _, t := range q.Invalid {
+			gotI[string(t)]++
+		}
+		diff, who := "", -1
+		for i, t := range txs {
+			if i == first[bi] {
+				continue
+			}
+			k := string(t)
+			if wantV[k] != gotV[k] || wantI[k] != gotI[k] {
+				diff, who = "verdict-of-another-tx", i
+				break
+			}
+		}
+		if diff == "" && len(q.Valid)+len(q.Invalid) != len(txs)-map[bool]int{true: 1, false: 0}[first[bi] >= 0] {
+			diff = "verdict-of-another-tx"
+		}
+		if diff == "" && !bytes.Equal(p.AppHash, q.AppHash) {
+			diff = "apphash"
+		}
+		if diff == "" {
+			continue
+		}
+		// attribute: the removed tx of the last block ≤ bi that had one
+		ab := bi
+		for ab > 0 && first[ab] < 0 {
+			ab--
+		}
+		cls, cause := "block", ""
+		if first[ab] >= 0 {
+			t := blocks[ab][first[ab]]
+			cls = e.info(t).class
+			for j, it := range rec.Blocks[ab].Invalid {
+				if bytes.Equal(it, t) {
+					cause = rec.Blocks[ab].Errs[j]
+				}
+			}
+		}
+		d := fmt.Sprintf("block %d with vs without its first invalid tx (block %d tx %d, %s, error %q; the other invalid txs stay): ", bi+1, ab+1, first[ab], cls, cause)
+		if who >= 0 {
+			oi := e.info(txs[who])
+			ov := "invalid"
+			if vd[bi][who] {
+				ov = "valid"
+			}
+			nv := "valid" // the counts of these bytes differ: the other verdict (for identical copies: of one of them)
+			if gotV[string(txs[who])] < wantV[string(txs[who])] {
+				nv = "invalid"
+			}
+			if (nv == "valid") == vd[bi][who] {
+				ov = map[bool]string{true: "invalid", false: "valid"}[vd[bi][who]] + " (a copy of it)"
+			}
+			oerr := ""
+			for j, it := range p.Invalid {
+				if bytes.Equal(it, txs[who]) {
+					oerr = p.Errs[j]
+				}
+			}
+			d += fmt.Sprintf("tx %d (%s) is reported %s (%q) with it and %s without it", who, oi.class, ov, oerr, nv)
+		} else {
+			d += fmt.Sprintf("app hash %x vs %x", p.AppHash, q.AppHash)
+		}
+		fs = append(fs, finding{sig: map[string]string{"kind": "invalid-tx-changed-state", "diff": diff, "input": cls}, detail: d, block: ab, tx: first[ab]})
 		break
 	}
 	return fs, outcome, rec
